@@ -432,8 +432,16 @@ func check(r *result, f faultSpec, durable bool) (sig, desc string) {
 				return kf("event-lost", foreign[eid]), fmt.Sprintf("sub-%d never received persisted event %d (log position %d), not even after the final restart and drain", s, eid, p)
 			}
 		}
-		// (b) exactly once without faults
-		if f.Kind == "none" {
+		// (b) exactly once without faults - and without a store operation having failed of its own accord
+		// (a save rejected because the context the subscription was made with has ended is a failed save
+		// like any other: clause (d) above governs what may be delivered again)
+		opFailed := false
+		for _, op := range r.ops {
+			if op.Err && !op.Dead {
+				opFailed = true
+			}
+		}
+		if f.Kind == "none" && !opFailed {
 			for eid, c := range count {
 				if c != 1 {
 					return kf("duplicate-without-fault", foreign[eid]), fmt.Sprintf("fault-free history: sub-%d received event %d %d times", s, eid, c)
